@@ -161,7 +161,7 @@ func judge(x *bk.Exec, viol func(key, what string)) {
 }
 
 func Run(r *mon.Run) {
-	r.Rule = "n = 2..4 bidirectional requests arrive together; their 2n halves are parked at the admission hook and released in a chosen permutation (every permutation for n = 2 and 3 in both tiers, for n = 4 sampled in quick and complete in thorough) on top of six base states (idle, unidirectional in-only/out-only/full, unidirectional or bidirectional shell held inside its tear-down window, optionally released half-way through the admissions); after each decision and after a probe the set of clients owning an attached half must have size <= 1. Every (n, base, order, late-release) tuple is distinct and non-trivial by construction. Plus free-running stress (no gates) with 2-4 racing clients"
+	r.Rule = "n = 2..4 bidirectional requests arrive together; their 2n halves are parked at the admission hook and released in a chosen permutation (every permutation for n = 2 and 3 in both tiers, for n = 4 sampled in quick and complete in thorough) on top of six base states (idle, unidirectional in-only/out-only/full, unidirectional or bidirectional shell held inside its tear-down window, optionally released half-way through the admissions); after each decision and after a probe the set of clients owning an attached half must have size <= 1. Every (n, base, order, late-release) tuple is distinct and non-trivial by construction. Engine replay: the internal keys that the first 1-3 /io requests of ONE broker presented at the admission hook are used as unidirectional callback IDs against a FRESH broker whose 1st-3rd /io request is half attached or about to arrive (what a client could learn from its own copy of the program); no shell may consist of an /io half and that stream. Plus free-running stress (no gates) with 2-4 racing clients"
 	r.Assumptions = []string{"parking at the admit hook (outside b.mu) only chooses among orders the two racing goroutines of ConnectInOut can produce by themselves"}
 	var cases []caseT
 	for _, n := range []int{2, 3} {
@@ -195,6 +195,9 @@ func Run(r *mon.Run) {
 				runCase(r, "gate", i, cases[i])
 			}
 		})
+	}
+	if r.WantEngine("replay") {
+		replayKeys(r)
 	}
 	if r.WantEngine("stress") {
 		stress(r)
